@@ -121,12 +121,20 @@ func parseCompat(path string) map[rune][]rune {
 	return m
 }
 
+// repoDir is /repo; VERIF_REPO (development aid, see /verif/check) overrides it.
+func repoDir() string {
+	if d := os.Getenv("VERIF_REPO"); d != "" {
+		return d
+	}
+	return "/repo"
+}
+
 var (
 	glyphList, glyphMap = parseList("glyphlist.txt")
 	dingList, dingMap   = parseList("zapfdingbats.txt")
 	aglfn               = parseAGLFN()
 	compatDoc           = parseCompat("testdata/compat.go.txt")
-	compatTree          = parseCompat("/repo/type1/names/compat.go")
+	compatTree          = parseCompat(repoDir() + "/type1/names/compat.go")
 )
 
 // ---------------------------------------------------------------------------
